@@ -41,8 +41,23 @@ def absPath (cwd : String) (p : Option String) : Option String :=
     else if p.startsWith "~" || p.startsWith "/" then some p
     else some (cwd ++ "/" ++ p)
 
-/-- executor.py:396-398: `path = location; if not path or path == ".": path = os.getcwd()` -/
-def dirOf (cwd : String) (b : Build) : String :=
+/-- `os.path.expanduser` for the forms `~` and `~/…` (the current user's home) -/
+def expandUser (home p : String) : String :=
+  match p.toList with
+  | ['~'] => home
+  | '~' :: '/' :: rest => String.ofList (home.toList ++ '/' :: rest)
+  | _ => p
+
+/-- executor.py:396-400 (repaired tree): `path = location; if not path or path == ".":
+path = os.getcwd() else: path = os.path.expanduser(path)` — the directory the benchmarks of
+the suite / executor run in (executor.py `_generate_data_point` expands `~` as well) -/
+def dirOf (cwd home : String) (b : Build) : String :=
+  match b.loc with
+  | none => cwd
+  | some p => if p = "" || p = "." then cwd else expandUser home p
+
+/-- the pinned tree did not expand `~` for builds (executor.py:396-398) -/
+def dirOfPinned (cwd : String) (b : Build) : String :=
   match b.loc with
   | none => cwd
   | some p => if p = "" || p = "." then cwd else p
@@ -108,6 +123,7 @@ deriving DecidableEq, Repr
 
 structure Cfg where
   cwd : String
+  home : String := "/root"
   doBuilds : Bool
   res : Build → BRes
   /-- `true`: the repaired tree (an `OSError` while starting the build script raises
@@ -142,7 +158,7 @@ def processBuild (c : Cfg) (st : St) (run : Run) (b : Option Build) : St × Bool
     if b ∈ st.built then (st, false)
     else if b ∈ st.failed then ({ st with failImm := run.id :: st.failImm }, true)
     else
-      let st := st.emit (Ev.buildStart b (dirOf c.cwd b) run.env run.id)
+      let st := st.emit (Ev.buildStart b (dirOf c.cwd c.home b) run.env run.id)
       match c.res b with
       | .ok => ({ st.emit (Ev.buildEnd b .ok) with built := b :: st.built }, false)
       | .fail =>
@@ -357,7 +373,7 @@ def pstep (c : PCfg) (n : Nat) (fuel : Nat) (i : Nat) (ps : PSt) : PSt :=
       | none => continueWith c n fuel i ps w run k
     | .atBuild run k b =>
       -- act: the script process is started and runs to its end
-      let st' := ps.st.emit (Ev.buildStart b (dirOf c.cwd b) run.env run.id)
+      let st' := ps.st.emit (Ev.buildStart b (dirOf c.cwd c.home b) run.env run.id)
       { ps with st := st' }.put i { w with pc := .building run k b }
     | .building run k b =>
       -- mark, release the lock
